@@ -289,6 +289,65 @@ theorem family_card_eq_finrank [Fintype κ] (S : Seeds c κ) (hcard : (Fintype.c
 
 end Family
 
+section ListFamily
+variable {G ι K : Type*} [Group G] [Fintype G] [MulAction G ι] [Fintype ι] [DecidableEq ι]
+  [Field K] (c : Cocycle G ι K)
+
+omit [Fintype ι] in
+/-- What the code does after group-summing, abstractly: `N i` is the "normalised row" of seed `i`
+(a non-zero multiple of the group sum that does not depend on the sign of the group sum — the
+leading-sign step), and `L` lists the distinct normalised non-zero rows (the `np.unique` step), each
+rescaled afterwards by any non-zero `t n`.  Such a list is a family of seeds: one per orbit. -/
+theorem exists_seeds_of_list (N : ι → (ι → K))
+    (hN1 : ∀ i, avg c i ≠ 0 → ∃ s : K, s ≠ 0 ∧ N i = s • avg c i)
+    (hN2 : ∀ i i', (avg c i = avg c i' ∨ avg c i = -avg c i') → N i = N i')
+    (L : List (ι → K)) (hnd : L.Nodup)
+    (hmem : ∀ v, v ∈ L ↔ ∃ i, avg c i ≠ 0 ∧ v = N i)
+    (t : Fin L.length → K) (ht : ∀ n, t n ≠ 0) :
+    ∃ S : Seeds c (Fin L.length), ∀ n, S.family n = t n • L.get n := by
+  have hex : ∀ n : Fin L.length, ∃ i, avg c i ≠ 0 ∧ L.get n = N i :=
+    fun n => (hmem _).mp (List.get_mem L n)
+  choose r hr0 hr using hex
+  have hsc : ∀ n, ∃ s : K, s ≠ 0 ∧ N (r n) = s • avg c (r n) := fun n => hN1 _ (hr0 n)
+  choose sc hsc0 hsc1 using hsc
+  refine ⟨{ rep := r
+            scale := fun n => t n * sc n
+            scale_ne := fun n => mul_ne_zero (ht n) (hsc0 n)
+            avg_ne := hr0
+            one_per_orbit := ?_
+            cover := ?_ }, ?_⟩
+  · rintro a b ⟨h, hh⟩
+    have hab : avg c (r a) = c.ε h (r b) • avg c (r b) := by
+      rw [← avg_same_orbit]; exact congrArg (avg c) hh.symm
+    have : N (r a) = N (r b) := by
+      apply hN2
+      rcases c.sq h (r b) with e | e <;> rw [e] at hab
+      · left; simpa using hab
+      · right; simpa using hab
+    exact (hnd.get_inj_iff).mp (by rw [hr a, hr b, this])
+  · intro i hi
+    obtain ⟨n, hn⟩ := List.get_of_mem ((hmem (N i)).mpr ⟨i, hi, rfl⟩)
+    refine ⟨n, ?_⟩
+    obtain ⟨s, hs0, hs⟩ := hN1 i hi
+    have heq : sc n • avg c (r n) = s • avg c i := by rw [← hsc1, ← hs, ← hr, hn]
+    obtain ⟨j, hj⟩ : ∃ j, avg c i j ≠ 0 := by
+      by_contra h
+      push Not at h
+      exact hi (funext h)
+    have hj' : avg c (r n) j ≠ 0 := by
+      intro h0
+      have := congrFun heq j
+      simp only [Pi.smul_apply, smul_eq_mul, h0, mul_zero] at this
+      exact mul_ne_zero hs0 hj this.symm
+    have h1 := orbit_eq_iff.mpr (avg_support c i j hj)
+    have h2 := orbit_eq_iff.mpr (avg_support c (r n) j hj')
+    exact orbit_eq_iff.mp (h1.symm.trans h2)
+  · intro n
+    change (t n * sc n) • avg c (r n) = t n • L.get n
+    rw [mul_smul, ← hsc1, ← hr]
+
+end ListFamily
+
 section Trace
 variable {G ι K : Type*} [Group G] [MulAction G ι] [Fintype ι] [DecidableEq ι]
   [Field K] (c : Cocycle G ι K)
